@@ -281,6 +281,8 @@ def patterns(repr_):
         P["h_neg_later"] = [-10, -5, -4, 3]                      # negative start in a later run (F1)
         P["h_lo_start"] = [safe_lo, safe_lo + 1, 5, hi]          # run at type/domain minimum (F6), run at maximum
         P["h_allneg"] = [-100, -99, -50, -3, -2, -1]
+        if bits >= 64:
+            P["h_far"] = [safe_lo, hi]          # neighbours more than 2^63 apart (differences overflow i64)
     else:
         P["h_lo_start"] = [0, 1, 5, hi]
     if bits == 8:
